@@ -1,0 +1,121 @@
+//! Verification hooks for `connection_pool.rs` (compiled only with `--cfg scylla_verif`).
+//!
+//! A real `NodeConnectionPool` (with its `PoolRefiller` task) pointed at a scripted server.
+//! Contains no driver logic of its own.
+
+use super::*;
+use crate::network::connection_verif as cv;
+use crate::statement::unprepared::Statement;
+use std::net::SocketAddr;
+
+pub struct VerifPool {
+    pool: NodeConnectionPool,
+}
+
+impl VerifPool {
+    /// `NodeConnectionPool::new` for a contact point; must be called inside a tokio runtime.
+    pub fn new(
+        addr: SocketAddr,
+        pool_size: PoolSize,
+        keyspace: Option<(&str, bool)>,
+        can_use_shard_aware_port: bool,
+        keepalive: Option<(Duration, Duration)>,
+    ) -> Result<Self, String> {
+        let keyspace = match keyspace {
+            None => None,
+            Some((name, cs)) => {
+                Some(VerifiedKeyspaceName::new(name.to_owned(), cs).map_err(|e| e.to_string())?)
+            }
+        };
+        let mut connection_config = cv::connection_config();
+        if let Some((interval, timeout)) = keepalive {
+            connection_config.keepalive_interval = Some(interval);
+            connection_config.keepalive_timeout = Some(timeout);
+        }
+        let pool_config = PoolConfig {
+            connection_config,
+            pool_size,
+            can_use_shard_aware_port,
+            reconnect_policy: Arc::new(crate::policies::reconnect::ConstantReconnectPolicy::new(
+                Duration::from_millis(50),
+            )),
+        };
+        let (pool_empty_notifier, _) = mpsc::channel(1);
+        let endpoint =
+            UntranslatedEndpoint::ContactPoint(crate::cluster::node::ResolvedContactPoint {
+                address: addr,
+            });
+        let pool = NodeConnectionPool::new(
+            endpoint,
+            &pool_config,
+            None,
+            keyspace,
+            pool_empty_notifier,
+            Metrics::new(),
+        );
+        Ok(Self { pool })
+    }
+
+    pub async fn wait_until_initialized(&self) {
+        self.pool.wait_until_initialized().await
+    }
+
+    pub fn is_connected(&self) -> bool {
+        self.pool.is_connected()
+    }
+
+    /// Number of shards the pool believes the node has (`None` = not sharded / not ready).
+    pub fn nr_shards(&self) -> Option<u16> {
+        self.pool.sharder().map(|s| s.nr_shards.get())
+    }
+
+    /// Number of working (published) connections; `Err` = pool not ready.
+    pub fn connection_count(&self) -> Result<usize, String> {
+        self.pool
+            .get_working_connections()
+            .map(|c| c.len())
+            .map_err(|e| e.to_string())
+    }
+
+    /// `NodeConnectionPool::use_keyspace` (`VerifiedKeyspaceName::new` first).
+    pub async fn use_keyspace(&self, name: &str, case_sensitive: bool) -> Result<(), String> {
+        let verified = VerifiedKeyspaceName::new(name.to_owned(), case_sensitive)
+            .map_err(|e| format!("BadKeyspaceName:{e}"))?;
+        self.pool.use_keyspace(verified).await.map_err(|e| match e {
+            UseKeyspaceError::BadKeyspaceName(_) => "BadKeyspaceName".to_owned(),
+            UseKeyspaceError::RequestError(_) => "RequestError".to_owned(),
+            UseKeyspaceError::KeyspaceNameMismatch { .. } => "KeyspaceNameMismatch".to_owned(),
+            UseKeyspaceError::RequestTimeout(_) => "RequestTimeout".to_owned(),
+            #[allow(unreachable_patterns)]
+            _ => "OtherUseKeyspaceError".to_owned(),
+        })
+    }
+
+    /// `connection_for_shard(shard)` then an unpaged QUERY with `text` on that connection.
+    /// Returns the connection's server-reported shard (if any) and whether the query succeeded.
+    pub async fn query_on_shard(
+        &self,
+        shard: Shard,
+        text: &str,
+    ) -> Result<(Option<u16>, bool), String> {
+        let conn = self
+            .pool
+            .connection_for_shard(shard)
+            .map_err(|e| e.to_string())?;
+        let reported = conn.get_shard_info().as_ref().map(|s| s.shard);
+        let ok = conn.query_unpaged(&Statement::new(text)).await.is_ok();
+        Ok((reported, ok))
+    }
+
+    /// `random_connection()` then an unpaged QUERY with `text`.
+    pub async fn query_on_random(&self, text: &str) -> Result<(Option<u16>, bool), String> {
+        let conn = self.pool.random_connection().map_err(|e| e.to_string())?;
+        let reported = conn.get_shard_info().as_ref().map(|s| s.shard);
+        let ok = conn.query_unpaged(&Statement::new(text)).await.is_ok();
+        Ok((reported, ok))
+    }
+
+    pub fn trigger_refill(&self) {
+        self.pool.trigger_immediate_refill()
+    }
+}
